@@ -519,6 +519,138 @@ fn vftable_mismatch(t: &mut Tape, prog: &mut Prog) -> String {
     "vftable-mismatch".into()
 }
 
+/// A small hierarchy (2-5 types, up to three levels, one or two bases each) in which function names come
+/// from {f, g}, base field names from {base, b} and some functions are called `<field>_<name>` outright:
+/// every path of the renaming of re-exposed functions meets names that are taken, taken twice, or taken
+/// by the renamed form itself.
+fn rename_collision_prog(t: &mut Tape) -> Prog {
+    let n = 2 + t.below(4) as usize;
+    let mut m = Mod {
+        path: vec!["h".into()],
+        ..Default::default()
+    };
+    let fnames = ["f", "g", "base_f", "b_f", "base_g", "b_base_f", "base_base_f"];
+    let mut addr = 0x1000i128;
+    for i in 0..n {
+        let name = format!("H{i}");
+        let mut td = TypeDef {
+            vis: true,
+            name: name.clone(),
+            ..Default::default()
+        };
+        // bases among the earlier types; a type with a vftable-carrying first base repeats its table
+        let nb = if i == 0 { 0 } else { t.below(3) as usize };
+        let mut first_base_vft: Option<Vft> = None;
+        let mut used_fields: Vec<&str> = vec![];
+        for k in 0..nb {
+            let b = t.below(i as u64) as usize;
+            let fname = if t.chance(3, 4) { "base" } else { "b" };
+            if used_fields.contains(&fname) {
+                continue;
+            }
+            used_fields.push(fname);
+            let mut f = Field::new(fname, Ty::Named(format!("H{b}")));
+            f.base = true;
+            if k == 0 {
+                // effective table of the first base (own block or its first base's, one level is enough here)
+                if let Some(Item::Type(bt)) = m.items.get(b) {
+                    first_base_vft = bt.vft.clone();
+                }
+            }
+            td.fields.push(f);
+        }
+        let mk = |name: &str, addr: Option<i128>| Func {
+            more: vec![],
+            sty: 0,
+            vis: true,
+            name: name.to_string(),
+            doc: vec![],
+            args: vec![Arg::ConstSelf],
+            ret: None,
+            addr: addr.map(Num::d),
+            index: None,
+            cc: None,
+        };
+        match &first_base_vft {
+            Some(v) => {
+                if t.chance(1, 2) {
+                    let mut v = v.clone();
+                    if t.chance(1, 2) {
+                        let extra = *t.pick(&fnames);
+                        if !v.funcs.iter().any(|f| f.name == extra) {
+                            v.funcs.push(mk(extra, None));
+                        }
+                    }
+                    td.vft = Some(v);
+                }
+            }
+            None => {
+                if t.chance(1, 2) {
+                    let k = 1 + t.below(2);
+                    let mut funcs: Vec<Func> = vec![];
+                    for _ in 0..k {
+                        let nme = *t.pick(&fnames);
+                        if !funcs.iter().any(|f| f.name == nme) {
+                            funcs.push(mk(nme, None));
+                        }
+                    }
+                    td.vft = Some(Vft { size: None, funcs });
+                }
+            }
+        }
+        td.fields.push(Field::new(&format!("x{i}"), Ty::n("u32")));
+        m.items.push(Item::Type(td));
+        if t.chance(2, 3) {
+            let k = 1 + t.below(2);
+            let mut funcs: Vec<Func> = vec![];
+            for _ in 0..k {
+                let nme = *t.pick(&fnames);
+                if !funcs.iter().any(|f| f.name == nme) {
+                    addr += 0x10;
+                    funcs.push(mk(nme, Some(addr)));
+                }
+            }
+            m.impls.push(Impl { ty: name, funcs });
+        }
+    }
+    Prog { mods: vec![m] }
+}
+
+/// All base fields of the program get one of two names and many functions one name: the renaming of
+/// re-exposed functions (`<field>_<name>`) then runs into names that are taken as well (the shape of
+/// known finding F19, which for this property only has to return).
+fn same_base_field_names(t: &mut Tape, prog: &mut Prog) -> String {
+    let fname = if t.chance(1, 2) { Some("f".to_string()) } else { None };
+    for m in prog.mods.iter_mut() {
+        for it in m.items.iter_mut() {
+            if let Item::Type(td) = it {
+                let mut k = 0;
+                for f in td.fields.iter_mut().filter(|f| f.base) {
+                    f.name = if k == 0 || t.chance(1, 2) { "base".into() } else { "base2".into() };
+                    k += 1;
+                }
+                if let (Some(n), Some(v)) = (&fname, &mut td.vft) {
+                    if let Some(f) = v.funcs.first_mut() {
+                        if t.chance(1, 2) {
+                            f.name = n.clone();
+                        }
+                    }
+                }
+            }
+        }
+        if let Some(n) = &fname {
+            for im in m.impls.iter_mut() {
+                if let Some(f) = im.funcs.first_mut() {
+                    if t.chance(1, 2) {
+                        f.name = n.clone();
+                    }
+                }
+            }
+        }
+    }
+    "same-base-field-names".into()
+}
+
 fn edge_doc(t: &mut Tape) -> Vec<String> {
     match t.below(9) {
         0 => vec![String::new()],
@@ -593,7 +725,7 @@ impl Prop for Directed {
         "C12/directed".into()
     }
     fn rule(&self) -> String {
-        "grammar-directed hostile inputs: (a) accepted programs from the rich generator with 1-3 poisonings: a boundary integer (isize::MIN, -1, 0, 1, 2^31±1, 2^32, 2^63-1, values near usize::MAX/k) in a numeric position (field address, type size/align/singleton, vftable size, vfunc index, array length, unknown<N>, pointer and array nesting 100-700 levels deep, enum value, extern-type size/align, function and extern-value address; positive table sizes/indices capped at 65536), an unusual identifier (`_`, raw, unicode, names of generated items) in a name position, #[base] on arbitrary fields, by-value recursion, cyclic/self/empty `use`, odd module file names; name-clash perturbations (one program in three), a derived vftable block that disagrees with its base's table (one in three), doc comments with edge content (empty, multi-byte, quotes, braces, long; one in three); (b) syntactically valid random modules over the full grammar (gast) as one or two modules. Every case runs in a worker process under RLIMIT_AS 2 GiB / RLIMIT_CPU 20 s through parse_str, add_module+build+write_module and pyxis::build on disk. Oracle: every call returns; no panic (incl. arithmetic overflow: overflow checks on), abort, segfault or limit hit; both entry points agree on Ok/Err. Non-trivial: >=1 file parses".into()
+        "grammar-directed hostile inputs: (a) accepted programs from the rich generator with 1-3 poisonings: a boundary integer (isize::MIN, -1, 0, 1, 2^31±1, 2^32, 2^63-1, values near usize::MAX/k) in a numeric position (field address, type size/align/singleton, vftable size, vfunc index, array length, unknown<N>, pointer and array nesting 100-700 levels deep, enum value, extern-type size/align, function and extern-value address; positive table sizes/indices capped at 65536), an unusual identifier (`_`, raw, unicode, names of generated items) in a name position, #[base] on arbitrary fields, by-value recursion, cyclic/self/empty `use`, odd module file names; name-clash perturbations (one program in three), a derived vftable block that disagrees with its base's table (one in three), doc comments with edge content (empty, multi-byte, quotes, braces, long; one in three), all base fields named alike and functions sharing one name (one in five); small hierarchies whose function and base-field names are drawn from {f, g, base_f, b_f, ...} x {base, b} so that the renaming of re-exposed functions meets taken names at every step (one case in eight); (b) syntactically valid random modules over the full grammar (gast) as one or two modules. Every case runs in a worker process under RLIMIT_AS 2 GiB / RLIMIT_CPU 20 s through parse_str, add_module+build+write_module and pyxis::build on disk. Oracle: every call returns; no panic (incl. arithmetic overflow: overflow checks on), abort, segfault or limit hit; both entry points agree on Ok/Err. Non-trivial: >=1 file parses".into()
     }
     fn gen(&self, t: &mut Tape) -> Case {
         let w = if t.chance(1, 2) { 8 } else { 4 };
@@ -608,6 +740,13 @@ impl Prop for Directed {
                 files,
                 w,
                 what: "random-grammar".into(),
+            };
+        }
+        if t.chance(1, 8) {
+            return Case {
+                files: print_prog(&rename_collision_prog(t)),
+                w,
+                what: "rename-collisions".into(),
             };
         }
         let mut cfg = GenCfg::rich(w);
@@ -627,6 +766,9 @@ impl Prop for Directed {
         }
         if t.chance(1, 3) {
             whats.push(vftable_mismatch(t, &mut prog));
+        }
+        if t.chance(1, 5) {
+            whats.push(same_base_field_names(t, &mut prog));
         }
         if t.chance(1, 3) {
             whats.push(edge_docs(t, &mut prog));
